@@ -345,6 +345,17 @@ def part_npy_truncation(ctx, tmp):
                              real[:4], dec[:4], 'model decoder differs from np.load on a complete file', kind='tie')
             exps = ctx.model([[81, [10, list(full), want_of(dt, shape)]]])[0]
             hdr_end = len(full) - x.nbytes
+            # printer tie: the header text numpy / katdal wrote is print_hdr_c (the printer of the round-trip theorem)
+            nb = 2 if full[6] == 1 else 4
+            htext = full[8 + nb:hdr_end]
+            pad = len(htext) - len(htext.rstrip(b' \n')) - 1
+            printed = ctx.model([[8, [4, want_of(dt, shape), pad]]])[0]
+            ctx.traces_validated += 1
+            ctx.count('header_printer_tie')
+            if bytes(printed) != htext or int.from_bytes(full[8:8 + nb], 'little') != len(htext):
+                ctx.disagree('part=npy;what=header_printer;dtype=%s' % dt, dict(part='npy_truncation', dtype=dt, shape=list(shape),
+                             direct_write=direct, offset=0), htext.decode('latin1'), bytes(printed).decode('latin1'),
+                             'the header text of a stored chunk is not what the model printer prints', kind='tie')
             for k in offsets(ctx, len(full), hdr_end, 220 if not direct else 60):
                 with open(fn, 'wb') as f:
                     f.write(full[:k])
